@@ -60,7 +60,8 @@ Definition cand_check (cb : cand * bytes) : bool :=
 Definition iret := option (bytes * value * bytes).     (* address bytes, amount (raw), output CBOR *)
 
 Record call := mkCall {
-  k_plutus : bool;                 (* a Plutus script is witnessed or a reference script is used (from the scenario) *)
+  k_expect : bool;                 (* the SCENARIO's statement: a Plutus script is executed or a reference script is used *)
+  k_ss : sstate;                   (* the builder's script tables on entry (read from the implementation's objects) *)
   k_addr : option bytes;           (* collateral_return_address *)
   k_P : cparams;
   k_cpb : Z;                       (* coins_per_utxo_byte *)
@@ -99,12 +100,17 @@ Definition optz_eqb (a b : option Z) : bool :=
 Definition addr_or_nil (k : call) : bytes := match k_addr k with Some a => a | None => [] end.
 
 Definition model_call (k : call) : list cand * outcome :=
-  set_collateral_return (min_lovelace_ret (k_cpb k) (addr_or_nil k)) (k_P k) (k_plutus k)
+  set_collateral_return_ss (min_lovelace_ret (k_cpb k) (addr_or_nil k)) (k_P k) (k_ss k)
     (match k_addr k with Some _ => true | None => false end)
     (map fst (k_explicit k)) (map fst (k_inputs k)) (map fst (k_potential k)) (map fst (k_at k)).
 
+(* the gate computed by the model from the builder's tables agrees with what the scenario put into the builder
+   (a builder that loses a script on its way into the tables is caught here) *)
+Definition gate_check (k : call) : bool := Bool.eqb (needs_collateral (k_ss k)) (k_expect k).
+
 Definition c13_corr (k : call) : bool :=
   forallb cand_check (k_explicit k ++ k_inputs k ++ k_potential k ++ k_at k) &&
+  gate_check k &&
   let (colls, o) := model_call k in
   id_list_eqb (ids colls) (k_colls k) &&
   (exc_code o =? k_exc k)%N &&
@@ -151,7 +157,7 @@ Fixpoint all_some {A} (l : list (option A)) : option (list A) :=
    (fee <= max_tx_fee + fee_buffer: req100 = percent * (max_tx_fee + fee_buffer)).
    8 = some collateral cannot be resolved among the candidates of the call. *)
 Definition c13_call_failed (k : call) : list nat :=
-  if k_plutus k && (match k_addr k with Some _ => true | None => false end) && (k_exc k =? 0)%N then
+  if k_expect k && (match k_addr k with Some _ => true | None => false end) && (k_exc k =? 0)%N then
     let pool := k_explicit k ++ k_inputs k ++ k_potential k ++ k_at k in
     match all_some (map (fun i => find_cand i pool) (k_colls k)) with
     | Some colls =>
@@ -222,6 +228,19 @@ Definition body_view_of (body : bytes) : option body_view :=
   | _ => None
   end.
 
+(* "the transaction runs Plutus scripts", decided from the witness set the builder produces for the body
+   (ledger, feesOK: the collateral clauses apply iff txrdmrs tx is non-empty): field 5 (redeemers) of the
+   witness-set map is a non-empty array (legacy list form) or a non-empty map (Conway form) *)
+Definition wits_run_plutus (wits : bytes) : bool :=
+  match decode wits with
+  | Some (CM kvs) =>
+      match find_key 5 kvs with
+      | Some (CA (_ :: _)) | Some (CAi (_ :: _)) | Some (CM (_ :: _)) => true
+      | _ => false
+      end
+  | _ => false
+  end.
+
 (* premise of the property: the transaction runs Plutus scripts and a change address was given *)
 Definition c13_body_failed (L : lparams) (m : umap) (body : bytes) (runs_plutus has_change : bool) : list nat :=
   if runs_plutus && has_change then
@@ -239,14 +258,20 @@ Definition c13_body_oracle (L : lparams) (m : umap) (body : bytes) (runs_plutus 
   match c13_body_failed L m body runs_plutus has_change with [] => true | _ => false end.
 
 (* ---------- a scenario = its recorded calls + (optionally) the body that build() returned ---------- *)
-Record build_res := mkBuild { b_L : lparams; b_umap : umap; b_body : bytes; b_plutus : bool; b_change : bool }.
+(* b_plutus: the scenario's statement that a Plutus script is executed; b_wits: CBOR of build_witness_set() after build() *)
+Record build_res := mkBuild { b_L : lparams; b_umap : umap; b_body : bytes; b_plutus : bool; b_change : bool; b_wits : bytes }.
 Definition scen := (list call * option build_res)%type.
 
-Definition scen_corr (s : scen) : bool := forallb c13_corr (fst s).
+Definition scen_corr (s : scen) : bool :=
+  forallb c13_corr (fst s) &&
+  match snd s with
+  | Some b => Bool.eqb (wits_run_plutus (b_wits b)) (b_plutus b)     (* scenario and witness set agree on the premise *)
+  | None => true
+  end.
 Definition tag (i : nat) (l : list nat) : list nat := map (fun c => (i * 10 + c)%nat) l.
 Definition scen_call_failed (s : scen) : list nat := nodup Nat.eq_dec (flat_map c13_call_failed (fst s)).
 Definition scen_body_failed (s : scen) : list nat :=
   match snd s with
-  | Some b => c13_body_failed (b_L b) (b_umap b) (b_body b) (b_plutus b) (b_change b)
+  | Some b => c13_body_failed (b_L b) (b_umap b) (b_body b) (wits_run_plutus (b_wits b) || b_plutus b) (b_change b)
   | None => []
   end.
